@@ -1,5 +1,6 @@
 #!/usr/bin/env python3
-"""Apply each behaviour-preserving patch (/verif/benign/*.diff) in a scratch worktree and list every check that
+"""Apply each property-preserving patch (/verif/benign/*.diff: refactorings; /verif/neutral/*.diff: behaviour changes that
+cannot affect a property) in a scratch worktree and list every check that
 raises an alarm (exit != 0).  Any alarm here is a false alarm of the checker to be analysed and corrected.
 
 usage: try_benign.py [-v] [patch.diff ...]      (default: the whole corpus, 16 at a time)"""
@@ -8,7 +9,7 @@ import glob, os, re, subprocess, sys, tempfile
 
 VERB = "-v" in sys.argv
 args = [a for a in sys.argv[1:] if a != "-v"]
-pats = [os.path.abspath(a) for a in args] or sorted(glob.glob("/verif/benign/*.diff"))
+pats = [os.path.abspath(a) for a in args] or sorted(glob.glob("/verif/benign/*.diff")) + sorted(glob.glob("/verif/neutral/*.diff"))
 CHECKS = sorted(f"C{m.group(1)}" for f in os.listdir("/verif/hsa/rules") if (m := re.fullmatch(r"c(\d\d)\.py", f)))
 
 
